@@ -144,6 +144,12 @@ func (n *LocalNode) FindSuccessor(key uint64) (chord.VNode, error) {
 	}
 	// find next in ring according to finger table
 	closest := n.closestPrecedingNode(key)
+	if closest.ID() == n.ID() {
+		// no finger precedes the key (e.g. finger table not yet fixed after joining),
+		// asking ourselves again would recurse forever. The immediate successor
+		// is in (n, key) at this point, so forwarding to it still makes progress
+		closest = succ
+	}
 	// contact possibly remote node
 	return closest.FindSuccessor(key)
 }
